@@ -3,7 +3,7 @@ import Scion.Model.Pool
 /-! Driver for the buffer-ownership acceptor (engine `pool`, property C14).
 
 ops: `reset` | `hold <conn> <buf>` | `keep <conn> <buf>` | `fill <conn> <buf>` |
-     `present <conn> <buf>` | `done <conn> <buf>`   → `ok` or `reject <why>`
+     `present <conn> <buf>` | `done <conn> <buf>` | `release <conn> <buf>`   → `ok` or `reject <why>`
 (after a rejected event the acceptor continues from the state the event claims). -/
 namespace Driver.Pool
 open Scion.Pool
@@ -14,6 +14,7 @@ def force (s : ObsState) : ObsEv → ObsState
   | .fill _ b => setSeen s b .flight
   | .present l b => setSeen s b (.tx l)
   | .done _ b => setSeen s b .flight
+  | .release _ b => setSeen s b .flight
 
 def apply (s : ObsState) (e : ObsEv) : ObsState × String :=
   match obsStep s e with
@@ -31,6 +32,7 @@ def handle (s : ObsState) : List String → ObsState × String
        | "fill" => apply s (.fill c b)
        | "present" => apply s (.present c b)
        | "done" => apply s (.done c b)
+       | "release" => apply s (.release c b)
        | _ => (s, "bad-op"))
     | _, _ => (s, "bad-op")
   | _ => (s, "bad-op")
